@@ -778,3 +778,46 @@ example : classify Wntr.InpSchema.Gen.inpSections " \t J1   10.5\t0 ;note ".toLi
   constructor <;> decide +kernel
 
 end Wntr.InpRead
+
+/-! ## Part E — the [TIMES] grammar -/
+namespace Wntr.InpTimes
+open Wntr.InpText
+
+/-- **`time_option_roundtrip`**: every duration / timestep / start written by `_write_times` (`hh:mm:ss`) is read back as the
+same number of seconds, for EVERY non-negative second count -/
+theorem time_option_roundtrip (sec : Int) (h : 0 ≤ sec) : parseTimeVal (writeTimeVal sec) = sec := by
+  simp only [writeTimeVal, parseTimeVal]
+  exact time_hms_roundtrip sec h
+
+/-- the other accepted forms mean what EPANET says: `h:mm`, whole and decimal hours -/
+example : parseTimeVal (.hm 1 30) = 5400 ∧ parseTimeVal (.dec 24) = 86400 ∧ parseTimeVal (.dec ((3 : Rat) / 2)) = 5400 := by
+  refine ⟨?_, ?_, ?_⟩ <;> decide +kernel
+
+/-- **`start_clocktime_roundtrip`**: START CLOCKTIME written as `hh:mm:ss AM|PM` (hours - 12 after noon) and read by
+`_clock_time_to_sec`, for every time of day -/
+theorem start_clocktime_roundtrip (sec : Int) (h0 : 0 ≤ sec) (h1 : sec < 86400) :
+    clockTimeToSec (startHour sec) (hmsOf sec).2.1 (hmsOf sec).2.2 (startPm sec) = some sec := by
+  simp only [clockTimeToSec, startHour, startPm, hmsOf]
+  by_cases hlt : sec / 3600 < 12
+  · have hpm : decide (12 ≤ sec / 3600) = false := by simpa using hlt
+    simp only [if_pos hlt, hpm, Bool.false_eq_true, if_false]
+    rw [if_neg (by omega)]
+    congr 1
+    omega
+  · have hpm : decide (12 ≤ sec / 3600) = true := by simpa using hlt
+    simp only [if_neg hlt, hpm, if_true]
+    rw [if_neg (by omega), if_neg (by omega)]
+    congr 1
+    omega
+
+/-- a start clock time of 24 h or more cannot be written: `_write_times` produces `12:00:00 PM`-like strings that the reader
+refuses ("Cannot specify am/pm for times greater than 12:00:00") — the hypothesis `sec < 86400` is needed -/
+example : clockTimeToSec (startHour 90000) (hmsOf 90000).2.1 (hmsOf 90000).2.2 (startPm 90000) = none := by decide +kernel
+
+/-- **`times_keywords_roundtrip`**: every keyword `_write_times` writes is dispatched by `_read_times` to the attribute it
+was written from (decided on the keywords and attributes the translator extracted) -/
+theorem times_keywords_roundtrip :
+    (Wntr.InpSchema.Gen.timesWritten.all fun kf => timesField (kf.1.headD "") ((kf.1.drop 1).headD "") == kf.2) = true := by
+  decide +kernel
+
+end Wntr.InpTimes
